@@ -51,11 +51,11 @@ func runOrderedSeq(c *ImplicitCase, spec string, argv, argv2 []string) (Outcome,
 				if o.Bool {
 					v := &BRec{}
 					app.Var(cli.VarOpt{Name: o.DeclName(), Value: v, EnvVar: env, SetByUser: set})
-					hs = append(hs, Holder{c.D.OptKey(idx), &v.Rec, set})
+					hs = append(hs, Holder{Key: c.D.OptKey(idx), Rec: &v.Rec, Set: set})
 				} else {
 					v := &Rec{}
 					app.Var(cli.VarOpt{Name: o.DeclName(), Value: v, EnvVar: env, SetByUser: set})
-					hs = append(hs, Holder{c.D.OptKey(idx), v, set})
+					hs = append(hs, Holder{Key: c.D.OptKey(idx), Rec: v, Set: set})
 				}
 				if env != "" {
 					unsetenv(env)
@@ -65,7 +65,7 @@ func runOrderedSeq(c *ImplicitCase, spec string, argv, argv2 []string) (Outcome,
 				v := &Rec{}
 				set := new(bool)
 				app.Var(cli.VarArg{Name: a.Name, Value: v, SetByUser: set})
-				hs = append(hs, Holder{c.D.ArgKey(idx - len(c.D.Opts)), v, set})
+				hs = append(hs, Holder{Key: c.D.ArgKey(idx - len(c.D.Opts)), Rec: v, Set: set})
 			}
 		}
 		app.Spec = spec
@@ -74,7 +74,7 @@ func runOrderedSeq(c *ImplicitCase, spec string, argv, argv2 []string) (Outcome,
 			out.Bind = Snapshot(hs)
 			out.Raw = map[string][]string{}
 			for _, h := range hs {
-				out.Raw[h.Key] = append([]string{}, h.Rec.Vals...)
+				out.Raw[h.Key] = append([]string{}, h.Vals()...)
 			}
 		}
 		if err := app.Run(append([]string{"app"}, argv...)); err != nil {
@@ -88,7 +88,7 @@ func runOrderedSeq(c *ImplicitCase, spec string, argv, argv2 []string) (Outcome,
 				out2.Bind = Snapshot(hs)
 				out2.Raw = map[string][]string{}
 				for _, h := range hs {
-					out2.Raw[h.Key] = append([]string{}, h.Rec.Vals...)
+					out2.Raw[h.Key] = append([]string{}, h.Vals()...)
 				}
 			}
 			if err := app.Run(append([]string{"app"}, argv2...)); err != nil {
